@@ -3,3 +3,4 @@ package props
 import "testing"
 
 func TestC13(t *testing.T) { RunProp(t, propC13) }
+func TestC01(t *testing.T) { RunProp(t, propC01) }
